@@ -20,6 +20,7 @@ func C20(c *Ctx) {
 	r := c.R
 	r.Explain = "Decided statically: (R1) the confirmation hash covers every field the property names — round id, threshold; per participant name and the three keys; per message data, signature, sender, recipient, event, round id, offset — each written for every element of its slice with no filter, and the digest is taken over the whole buffer; " +
 		"(R3, header) reinitDKG refuses no (participants, threshold) header that the opening proposal's validation accepts; " +
+		"(R6) on the airgapped side the round's suite and the dealer's reader are built for the round from the base seed (the rules of C12/R2), so fresh machines given the same mnemonics regenerate the same polynomial whatever else the original machines had done; " +
 		"(R2) CLI and node call that one function, the node feeds it the posted payload, and the API form and the parsed type agree on wire names and types so decode-encode preserves every hashed field; " +
 		"(R3) reinitDKG replays the selected messages through the ordinary processMessage in slice order up to the first signing proposal, stores the collected operations as the payload of one reinit operation carrying the hash, and registers each participant's new communication key before saving; GenerateReDKGMessage copies round id, threshold and keys from the opening proposal; " +
 		"(R4) the airgapped machine replays every request operation through the ordinary handlers (an error aborts) and hands back PubPolyBytes() of the round's keyring; the node writes exactly that into the round named by the operation and saves that round; (R5) the 0.1.4 adaptation only inserts self-confirmations and renumbers offsets. " +
@@ -35,6 +36,8 @@ func C20(c *Ctx) {
 	c20Replay(c)
 	c20HandBack(c)
 	c20Adapt(c)
+	r.Rule("C20/R6", "the key material a machine regenerates is a function of the mnemonic and the round alone: suite and dealer reader are seeded from the base seed inside the round's own handler, never a stream shared across rounds (= C12/R2)", 6)
+	c12EntropySpecs(c, "C20/R6")
 }
 
 var reHashField = regexp.MustCompile(`json\(\w+\)\.(Participants|Messages)\[[^\]]*\]\.([A-Za-z]+)|json\(\w+\)\.(DKGID|Threshold)`)
